@@ -39,6 +39,10 @@ type Opts struct {
 	ObserveEvery int
 	// RIBOpts are further options for rib.New (e.g. rib.DisableRIBCheckFn()).
 	RIBOpts []rib.RIBOpt
+	// NoRefCheck: the RIB is built with rib.DisableRIBCheckFn() and the model does no
+	// reference checking either (everything schema-valid is installed at once, nothing is
+	// protected from deletion); reference counters are not compared in this configuration.
+	NoRefCheck bool
 }
 
 // Trace summarises what happened, for non-triviality rules.
@@ -96,6 +100,9 @@ func NewRIB(fwdRefs bool, o Opts) *rib.RIB {
 		ro = append(ro, rib.DisableForwardReferences())
 	}
 	ro = append(ro, o.RIBOpts...)
+	if o.NoRefCheck {
+		ro = append(ro, rib.DisableRIBCheckFn())
+	}
 	r := rib.New("DEFAULT", ro...)
 	if o.Setup != nil {
 		o.Setup(r)
@@ -116,6 +123,7 @@ func Run(h hgen.History, o Opts) (*ev.Verdict, *Trace) {
 	tr := &Trace{}
 	r := NewRIB(h.FwdRefs, o)
 	m := model.New("DEFAULT", hgen.NIs[1:], h.FwdRefs)
+	m.RefCheck = !o.NoRefCheck
 	fold := obs.State{}
 	type sent struct {
 		ni string
@@ -267,7 +275,9 @@ func Run(h hgen.History, o Opts) (*ev.Verdict, *Trace) {
 			ok1 = obs.CheckInstalled(m, got, v, P+"/installed-vs-model", when)
 		}
 		obs.CheckHeld(m, r, v, P+"/held-vs-model", when)
-		obs.CheckCounters(m, r, v, P+"/counter-vs-referrers", when)
+		if !o.NoRefCheck {
+			obs.CheckCounters(m, r, v, P+"/counter-vs-referrers", when)
+		}
 		if o.Closure && !partialFlushed {
 			if d := m.Dangling(); len(d) > 0 && ok1 {
 				v.Fail(P+"/dangling", "%s: installed entries with unresolved references: %v", when, d)
